@@ -55,10 +55,16 @@ func c09History(t *testing.T, idx int, seed uint64) {
 		}
 		var uids uidGen
 		retained := map[string]uint64{} // will topic -> uid of a retained will (model)
+		var prevWS willSpec
+		var prevClean bool
+		var prevKA uint16
 		for k := 0; k < nconn; k++ {
 			clean := r.Bool()
 			ws := willSpec{present: r.Intn(4) != 0}
-			if ws.present {
+			identical := k > 0 && r.Intn(3) == 0 // reconnect with byte-identical CONNECT (same will, same flags)
+			if identical {
+				ws, clean = prevWS, prevClean
+			} else if ws.present {
 				ws.qos = byte(r.Intn(3))
 				ws.retain = r.Intn(3) == 0
 				ws.topic = []string{"will/a", "will/b/c", "will/" + fmt.Sprint(k)}[r.Intn(3)]
@@ -68,11 +74,16 @@ func c09History(t *testing.T, idx int, seed uint64) {
 					ws.size = 0
 				}
 			}
+			prevWS, prevClean = ws, clean
 			ending := c09Endings[r.Intn(len(c09Endings))]
 			ka := uint16(600)
 			if ending == "keepalive" {
-				ka = uint16(1 + r.Intn(5))
+				ka = 3
 			}
+			if identical {
+				ka = prevKA // every byte of the CONNECT equals the previous connection's
+			}
+			prevKA = ka
 			ops = append(ops, fmt.Sprintf("conn%d clean=%v %v ending=%s", k, clean, ws, ending))
 			o := connectOpts{ClientID: "victim", Clean: clean, KeepAlive: ka}
 			if ws.present {
@@ -184,7 +195,10 @@ func c09History(t *testing.T, idx int, seed uint64) {
 				}
 			}
 			out.Count("c09.connections", 1)
-			out.Class(fmt.Sprintf("end/%s/clean%v/will%v/q%d/r%v/empty%v/resumed%v", ending, clean, ws.present, ws.qos, ws.retain, ws.present && ws.size == 0, k > 0))
+			out.Class(fmt.Sprintf("end/%s/clean%v/will%v/q%d/r%v/empty%v/resumed%v/identical%v", ending, clean, ws.present, ws.qos, ws.retain, ws.present && ws.size == 0, k > 0, identical))
+			if identical {
+				out.Count("c09.identical_reconnects", 1)
+			}
 			// retained wills are visible to a fresh subscriber
 			if r.Intn(2) == 0 || k == nconn-1 {
 				fs, fa := w.connectB(fmt.Sprintf("fresh%d", k), connectOpts{Clean: true, KeepAlive: 600})
